@@ -3,7 +3,7 @@
    SPEC = direct indexing / per-semantic input lists / the documented normalisations. *)
 From Coq Require Import List Bool ZArith NArith Lia.
 From PC Require Import Base.Atoms Base.Xml Base.Outcome Base.Py Model.LoadPrim Model.Namespace Model.LoadDoc
-                       Proofs.LoadPrim Proofs.LoadPrimViews Proofs.LoadDoc.
+                       Proofs.LoadPrim Proofs.LoadPrimViews Proofs.LoadPrimRefine Proofs.LoadDoc.
 Import ListNotations.
 Local Open Scope nat_scope.
 
@@ -114,6 +114,17 @@ Proof.
 Qed.
 Print Assumptions C05_polygons_views.
 
+(* All of the above composed, for the six primitive elements and every input layout: whenever
+   X.load succeeds, the declarative reading of the same element ([read_primitive]: per-semantic input
+   lists of the file, nindices = largest offset + 1, every view read by direct indexing of the <p>
+   elements as written, vcounts / starts / ends as prefix sums) is defined and is the primitive the
+   loader built (up to the record of its checkSource calls). *)
+Theorem C05_primitive_load_is_read : forall sc k inputs vcount ps pv,
+  load_primitive sc k inputs vcount ps = Ok pv ->
+  read_primitive sc k inputs vcount ps = Some (erase_checks pv).
+Proof. exact load_primitive_is_read. Qed.
+Print Assumptions C05_primitive_load_is_read.
+
 (* polylist: ends and starts are the prefix sums of the vertex counts *)
 Theorem C05_polylist_ranges : forall vc i, i < length vc ->
   nth i (poly_ends vc) 0%Z = sumZ (firstn (S i) vc) /\ nth i (poly_starts vc) 0%Z = sumZ (firstn i vc).
@@ -203,6 +214,22 @@ Example C05_source_example :
   normalise_source [nm a_S; nm a_T; nm a_P] [2; 1; 4; 6; 8; 1]%N = Ok ([nm a_S; nm a_T], [2; 0; 6; 8]%N) /\
   normalise_source [nm a_U; nm a_V] [2; 1]%N = Ok ([nm a_S; nm a_T], [2; 0]%N) /\
   normalise_source [nm a_X; nm a_Y; nm a_Z] [2; 1; 4]%N = Ok ([nm a_X; nm a_Y; nm a_Z], [2; 0; 4]%N).
+Proof. vm_compute. repeat split; reflexivity. Qed.
+
+(* non-vacuity of C05_primitive_load_is_read: a two-<p> tristrips with a vertices-level NORMAL and a
+   gap in the offsets loads, and the declarative reading gives the same five triangles *)
+Example C05_refinement_example :
+  let sc : scope := [(10, ESrc 100); (11, ESrc 101); (20, EVerts [(a_POSITION, Some 10); (a_NORMAL, Some 11)])]%N in
+  let ins := [mkInput 2 a_VERTEX (ARef true 20%N) None; mkInput 0 a_TEXCOORD (ARef true 11%N) (Some (AInt 0))] in
+  let p1 := Some (map TInt [5; 0; 0;  6; 0; 1;  7; 0; 2;  8; 0; 3;  9; 0; 4]%Z) in
+  let p2 := Some (map TInt [1; 0; 4;  2; 0; 3;  3; 0; 2;  4; 0; 1]%Z) in
+  match load_primitive sc KStrips ins None [p1; p2] with
+  | Ok pv => pv_count pv = 5 /\ pv_nind pv = 3 /\
+             option_map snd (pv_vertex pv) = Some [0; 1; 2;  2; 3; 4;  2; 1; 3;   4; 3; 2;  2; 3; 1]%Z /\
+             option_map fst (pv_normal pv) = Some 101%N /\
+             read_primitive sc KStrips ins None [p1; p2] = Some (erase_checks pv)
+  | Raise _ => False
+  end.
 Proof. vm_compute. repeat split; reflexivity. Qed.
 
 Local Open Scope N_scope.
